@@ -34,8 +34,8 @@ PROPS = {
 }
 # runs per flavour; sizes; determinism-gate sample; wall-clock cap of the sweeps (s)
 TIERS = {
-    "quick": dict(runs=dict(C03=40000, C04=40000, C05=30000, C08=12000, C12=30000, C17=60000, C18=12000, C19=20000), maxlog=7, maxlog_tree=5, max_copy=5000, gate=200, cap_s=150),
-    "thorough": dict(runs=dict(C03=60000, C04=50000, C05=50000, C08=30000, C12=60000, C17=120000, C18=24000, C19=40000), maxlog=10, maxlog_tree=7, max_copy=70000, gate=3000, cap_s=900),
+    "quick": dict(runs=dict(C03=40000, C04=40000, C05=30000, C08=12000, C12=30000, C17=60000, C18=12000, C19=20000), maxlog=9, maxlog_tree=6, max_copy=9000, gate=200, cap_s=150),
+    "thorough": dict(runs=dict(C03=60000, C04=50000, C05=50000, C08=30000, C12=60000, C17=120000, C18=24000, C19=40000), maxlog=12, maxlog_tree=8, max_copy=70000, gate=3000, cap_s=900),
 }
 MAX_EVENTS = 60  # violating runs per flavour that are classified (replayed) individually
 MAX_MINIMISE = 3  # distinct violation signatures that are minimised and written as replay files
@@ -67,10 +67,11 @@ class Sweep:
         self.restarts = 0
         self.timed_out = False
         self.first = indices_from
+        self.prefix = []  # e.g. valgrind
         self.lock = threading.Lock()
 
     def cmd(self, start):
-        c = [self.binary, "--worker", "--profile", self.profile, "--seed", str(self.base), "--start", str(start), "--stride", str(self.w), "--end", str(self.n),
+        c = list(self.prefix) + [self.binary, "--worker", "--profile", self.profile, "--seed", str(self.base), "--start", str(start), "--stride", str(self.w), "--end", str(self.n),
              "--maxlog", str(self.lim["maxlog"]), "--maxlog-tree", str(self.lim["maxlog_tree"]), "--max-copy", str(self.lim["max_copy"])]
         if "avx512" in self.flavour:
             c.append("--avx512")
@@ -131,7 +132,7 @@ class Sweep:
             # the worker died inside run `cur`
             if cur is None:
                 harness_error("worker of %s died before its first run (rc=%s): %s" % (self.flavour, rc, "".join(errbuf)[-800:]))
-            if rc == 77 or "Sanitizer" in "".join(errbuf):
+            if rc == 77 or "Sanitizer" in "".join(errbuf) or (self.prefix and "==" in "".join(errbuf)):
                 with self.lock:
                     self.sanitizer.append((cur[0], cur[1], "".join(errbuf)[-3000:]))
             elif not any(c[0] == cur[0] for c in self.crashes) and not any(f[0] == cur[0] for f in self.fatals):
@@ -167,8 +168,11 @@ def run_replay(binary, plan, record=False, timeout=120):
             pass
 
 
-def run_replay_file(binary, path, record=False, timeout=120):
-    cmd = [binary, "--replay", path] + (["--record"] if record else [])
+REPLAY_PREFIX = {}  # binary -> command prefix (valgrind for the plain flavour)
+
+
+def run_replay_file(binary, path, record=False, timeout=300):
+    cmd = REPLAY_PREFIX.get(binary, []) + [binary, "--replay", path] + (["--record"] if record else [])
     try:
         p = subprocess.run(cmd, stdout=subprocess.PIPE, stderr=subprocess.PIPE, text=True, timeout=timeout)
     except subprocess.TimeoutExpired:
@@ -191,7 +195,7 @@ def run_replay_file(binary, path, record=False, timeout=120):
             out["outcome"] = "harness-error"
             out["text"] = line
     if out["outcome"] == "ok":
-        if p.returncode == 77 or "Sanitizer" in p.stderr:
+        if p.returncode == 77 or "Sanitizer" in p.stderr or (binary in REPLAY_PREFIX and "==" in p.stderr and p.returncode != 0):
             out["outcome"] = "sanitizer"
         elif out["result"] is None:
             out["outcome"] = "crash"
@@ -209,7 +213,7 @@ SIGNAMES = {6: "SIGABRT", 11: "SIGSEGV", 8: "SIGFPE", 7: "SIGBUS", 4: "SIGILL"}
 
 
 def sanitizer_kind(text):
-    for k in ("alloc-dealloc-mismatch", "heap-buffer-overflow", "stack-buffer-overflow", "heap-use-after-free", "stack-use-after-return", "stack-use-after-scope", "global-buffer-overflow",
+    for k in ("Mismatched free", "Invalid read", "Invalid write", "uninitialised value", "Invalid free", "alloc-dealloc-mismatch", "heap-buffer-overflow", "stack-buffer-overflow", "heap-use-after-free", "stack-use-after-return", "stack-use-after-scope", "global-buffer-overflow",
               "SEGV", "double-free", "dynamic-stack-buffer-overflow", "runtime error", "attempting free", "negative-size-param", "memcpy-param-overlap"):
         if k in text:
             return k
@@ -245,7 +249,7 @@ def findings_of(rep, plan, binary=None):
         else:
             cls = "sanitizer(%s)" % sanitizer_kind(rep.get("text", ""))
             props.add("C18")
-            lines = [l for l in (rep.get("text") or "").splitlines() if "ERROR" in l or "runtime error" in l]
+            lines = [l for l in (rep.get("text") or "").splitlines() if "ERROR" in l or "runtime error" in l or "Invalid" in l or "uninitialised" in l or "Mismatched" in l]
             detail = lines[0].strip() if lines else ""
             import re as _re
             detail = _re.sub(r"==\d+==", "", detail)
@@ -512,6 +516,8 @@ def replay_mode(prop, path):
     if "avx512" in flavour and not B.cpu_has_avx512():
         harness_error("replay needs AVX-512 hardware")
     bins, _ = build_all([flavour])
+    if flavour.startswith("plain"):
+        REPLAY_PREFIX[bins[flavour]] = ["valgrind", "-q", "--error-exitcode=77", "--exit-on-first-error=yes", "--leak-check=no"]
     rep = run_replay_file(bins[flavour], path)
     fs = findings_of(rep, plan, bins[flavour])
     log("replay outcome: %s" % rep["outcome"])
@@ -564,16 +570,34 @@ def main():
         base = seed * 1000003 + k * 7919
         lim_f = dict(lim)
         if f.startswith("asan"):
-            lim_f["maxlog"] = min(lim["maxlog"], 8)
+            lim_f["maxlog"] = min(lim["maxlog"], 10)
         sw = Sweep(bins[f], f, prop, base, n, NPROC, lim_f, deadline, samples=True).run()
         sweeps.append(sw)
         log("sweep %-11s runs=%d wall=%.1fs crashes=%d sanitizer=%d fatals=%d restarts=%d%s" % (f, len(sw.results), sw.wall, len(sw.crashes), len(sw.sanitizer), len(sw.fatals), sw.restarts,
                                                                                           "  (stopped at the wall-clock cap)" if sw.timed_out else ""))
 
+    # ---- valgrind memcheck over the uninstrumented (as shipped -O3) build: thorough tier of C18 ----------
+    vg_sweep = None
+    if prop == "C18" and tier == "thorough" and shutil.which("valgrind"):
+        try:
+            vbin, vinfo = B.build("plain-avx2")
+        except RuntimeError as e:
+            harness_error("build of plain-avx2 failed: %s" % (e.args,))
+        infos["plain-avx2"] = vinfo
+        nvg = int(os.environ.get("VERIF_VALGRIND_RUNS", 4000))
+        vg_sweep = Sweep(vbin, "plain-avx2", prop, seed * 1000003 + 99991, nvg, NPROC, dict(lim, maxlog=min(lim["maxlog"], 8)), time.time() + 600, samples=False)
+        vg_sweep.prefix = ["valgrind", "-q", "--error-exitcode=77", "--exit-on-first-error=yes", "--errors-for-leak-kinds=none", "--leak-check=no"]
+        REPLAY_PREFIX[vbin] = vg_sweep.prefix
+        vg_sweep.run()
+        log("sweep %-11s runs=%d wall=%.1fs (under valgrind memcheck) reports=%d crashes=%d" % ("plain-avx2", len(vg_sweep.results), vg_sweep.wall, len(vg_sweep.sanitizer), len(vg_sweep.crashes)))
+        sweeps.append(vg_sweep)
+
     # ---- determinism gate: same indices again, other worker counts, fresh processes -----------------
     gate_checked = 0
     gate_ok = True
     for sw in sweeps:
+        if sw.prefix:
+            continue  # the valgrind sweep is re-executed only for its reports (below)
         g = min(T["gate"], sw.n)
         for wcount in (5, 1):
             gg = g if wcount == 5 else max(20, g // 8)
